@@ -48,6 +48,7 @@ func (f *Frame) loopHead(li *loopInfo, b *ssa.BasicBlock, edges []Edge, pc strin
 			ns := &LoopSpec{}
 			if spec != nil {
 				ns.Invariants = append(ns.Invariants, spec.Invariants...)
+				ns.Steps = spec.Steps
 				ns.Decreases = spec.Decreases
 			}
 			ns.Invariants = append([]Clause{auto}, ns.Invariants...)
@@ -65,6 +66,22 @@ func (f *Frame) loopHead(li *loopInfo, b *ssa.BasicBlock, edges []Edge, pc strin
 		}
 	}
 	// 1. invariants hold on entry
+	if spec != nil && vc.eng.tier != "thorough" {
+		// clauses of the thorough tier do not exist in the quick tier (neither checked nor assumed)
+		ns := &LoopSpec{Decreases: spec.Decreases}
+		for _, c := range spec.Invariants {
+			if c.Tier != "thorough" {
+				ns.Invariants = append(ns.Invariants, c)
+			}
+		}
+		for _, c := range spec.Steps {
+			if c.Tier != "thorough" {
+				ns.Steps = append(ns.Steps, c)
+			}
+		}
+		spec = ns
+		li.autoSpec = ns
+	}
 	if spec != nil {
 		for i, inv := range spec.Invariants {
 			env := f.env(st, f.entrySt, nil)
@@ -114,6 +131,7 @@ func (f *Frame) loopHead(li *loopInfo, b *ssa.BasicBlock, edges []Edge, pc strin
 		}
 	}
 	li.headPC = pc
+	li.headState = st.clone()
 	return pc, st
 }
 
@@ -189,6 +207,19 @@ func (f *Frame) backEdge(li *loopInfo, from *ssa.BasicBlock, pc string, st *Stat
 		vc.addObl(&Obl{Name: vc.oblName(fmt.Sprintf("inv%d", li.ordinal), fmt.Sprintf("preserved#%d%s@b%d", i, labelSuffix(inv.Labels), from.Index)), Kind: "inv-preserved", Labels: inv.Labels,
 			Pos: pos, PC: pc, Goal: t, Clause: inv.Text, Tier: inv.Tier})
 	}
+	for i, stp := range spec.Steps {
+		env := f.env(st, f.entrySt, nil)
+		env.headState = li.headState
+		f.headVals = saved
+		t, err := env.eval(stp.Expr)
+		f.headVals = nil
+		name := vc.oblName(fmt.Sprintf("inv%d", li.ordinal), fmt.Sprintf("step#%d%s@b%d", i, labelSuffix(stp.Labels), from.Index))
+		if err != nil {
+			vc.failObl(name, stp, err)
+			continue
+		}
+		vc.addObl(&Obl{Name: name, Kind: "inv-preserved", Labels: stp.Labels, Pos: pos, PC: pc, Goal: t, Clause: stp.Text, Tier: stp.Tier})
+	}
 	if spec.Decreases != nil && li.decEntry != "" {
 		env := f.env(st, f.entrySt, nil)
 		t, err := env.eval(spec.Decreases.Expr)
@@ -241,6 +272,13 @@ func (f *Frame) havocLoop(li *loopInfo, st *State, pc string) {
 	sort.Strings(keys)
 	for _, k := range keys {
 		r := e.Roots[k]
+		if len(r.path) > 0 && r.path[0] == -3 {
+			// elements of a slice parameter of this function: the whole memory of that element type
+			if r.elem != nil {
+				e.Mems[r.elem.String()] = r.elem
+			}
+			continue
+		}
 		p := f.rootPtr(r)
 		if p == nil {
 			vc.unsupported(li.head.Instrs[0].Pos(), "loop writes through unresolved root %s", r)
@@ -346,6 +384,7 @@ func (vc *VC) havocIface(st *State, short string) {
 
 func (f *Frame) execBlock(b *ssa.BasicBlock, pc string, st *State) {
 	vc := f.vc
+	f.curBlock = b
 	for _, ins := range b.Instrs {
 		switch x := ins.(type) {
 		case *ssa.Phi, *ssa.DebugRef:
@@ -378,11 +417,34 @@ func (f *Frame) flow(from, to *ssa.BasicBlock, pc string, st *State) {
 	if pc == "false" {
 		return
 	}
+	if f.unwinding != nil && f.unwinding.blocks[to] {
+		pos := from.Instrs[len(from.Instrs)-1].Pos()
+		f.vc.safety(pos, pc, "unwind", "false", fmt.Sprintf("loop %d runs at most %d iterations (unwinding assertion)", f.unwinding.ordinal, f.unwindBound))
+		return
+	}
+	if f.unrolling != nil && to == f.unrolling.head && f.unrolling.blocks[from] {
+		f.backEdges = append(f.backEdges, Edge{from: from, pc: pc, st: st})
+		return
+	}
 	if f.isBackEdge(from, to) {
 		f.backEdge(f.loops[to], from, pc, st)
 		return
 	}
-	f.in[to] = append(f.in[to], Edge{from: from, pc: pc, st: st})
+	e := Edge{from: from, pc: pc, st: st}
+	if f.unrolling != nil && f.unrolling.blocks[from] && !f.unrolling.blocks[to] {
+		// leaving an unrolled loop: snapshot the values used after it
+		e.esc = map[ssa.Value]SV{}
+		for _, el := range f.loopEsc {
+			if el.li == f.unrolling {
+				for _, v := range el.vals {
+					if sv, ok := f.vals[v]; ok {
+						e.esc[v] = sv
+					}
+				}
+			}
+		}
+	}
+	f.in[to] = append(f.in[to], e)
 }
 
 func (f *Frame) set(v ssa.Value, sv SV) {
@@ -414,6 +476,15 @@ func (f *Frame) exec(ins ssa.Instruction, pc string, st *State) {
 			st.objs[o] = SV{T: vc.S.zero(elem), Typ: elem}
 		}
 		f.vals[x] = SV{P: &Ptr{obj: o, typ: elem}, Typ: x.Type()}
+		// an array that is sliced somewhere is made region-backed at once, so that all paths agree on its region
+		if arr, isArr := elem.Underlying().(*types.Array); isArr && x.Referrers() != nil {
+			for _, r := range *x.Referrers() {
+				if sl, ok := r.(*ssa.Slice); ok && sl.X == x {
+					f.link(st, f.vals[x].P, arr.Elem())
+					break
+				}
+			}
+		}
 	case *ssa.BinOp:
 		f.set(x, vc.binop(x.Pos(), x.Op, f.val(x.X), f.val(x.Y), x.X.Type(), x.Y.Type(), x.Type(), pc))
 	case *ssa.UnOp:
@@ -603,12 +674,24 @@ func (vc *VC) idxAdd(a, b string) string {
 	if vc.mode == Math {
 		return fmt.Sprintf("(+ %s %s)", a, b)
 	}
+	if f, ok := foldBV(token.ADD, a, b, 64, true); ok {
+		return f
+	}
+	if b == "#x0000000000000000" {
+		return a
+	}
 	return fmt.Sprintf("(bvadd %s %s)", a, b)
 }
 
 func (vc *VC) idxSub(a, b string) string {
 	if vc.mode == Math {
 		return fmt.Sprintf("(- %s %s)", a, b)
+	}
+	if f, ok := foldBV(token.SUB, a, b, 64, true); ok {
+		return f
+	}
+	if b == "#x0000000000000000" {
+		return a
 	}
 	return fmt.Sprintf("(bvsub %s %s)", a, b)
 }
